@@ -244,6 +244,7 @@ def modify_entry_points(prog):
     return out
 
 
+@rule("C17", "R05.2", "the whole modification list is parsed (all-or-nothing) before it is applied", floor=2)
 @rule("C05", "R05.2", "the whole modification list is parsed (all-or-nothing) before it is applied", floor=2)
 def r05_2(prog, out):
     sl = Slicer(prog)
@@ -468,9 +469,13 @@ def r05_5(prog, out):
     for bid, bb, t in modify_entry_points(prog):
         bi = prog.info(bid)
         sm = sl.of(bid, t.args[1])
-        if any(p in sm.calls for p in parser) or not (elem & sm.calls):
+        if any(p in sm.calls for p in parser):
             continue
         key = "equal-lengths:%s" % prog.short(bid)
+        if not (elem & sm.calls):
+            if any(f[0].startswith("crate::pubsub_proto") for f in sm.fields):
+                out.undecided(key, bi.loc(bb), "request-derived modifications that pass neither the batch parser nor the seconds parser (R05.2 judges that)")
+            continue
         if "std::iter::Iterator::zip" in sm.calls:
             out.undecided(key, bi.loc(bb), "the modifications are zipped outside the batch parser")
         else:
